@@ -5,6 +5,29 @@ DEPS = ("Trusted base: rustc 1.97 nightly (type checker, const evaluator, match 
         "serde_bytes 0.11.19, cosey 0.3.2, iso7816 0.1.4 for value-level encoding/decoding. ")
 
 CLAIMS = {
+    "C01": {
+        "level": "other",
+        "technique": "static table agreement: decoder tables (key -> field, required, decoded type, lossy wiring) read from the derive-generated visit_map/visit_str bodies in typed HIR vs an independent parameter table; path-literal analysis of the command switch",
+        "text": "Decides the structural half of the property completely: which key lands in which field, required-ness, the CBOR shape of the decoded type, duplicate detection, unknown-index rejection, "
+                "the exact set of lossy decoders, and that every field is built from exactly one key, for all 7 indexed request structs and 7 nested text-keyed types in all 9 feature configurations; "
+                "the generated decoder treats members independently, so this covers every subset of present parameters. The value-level half (each leaf value delivered unaltered) lives in the dependencies and is not decided.",
+        "note": DEPS + "Not decided: leaf value decoding (cbor-smol, heapless, serde_bytes, cosey).",
+    },
+    "C02": {
+        "level": "other",
+        "technique": "static table agreement over emission tables read from generated Serialize impls (typed HIR); crate-wide no-null / no-dropped-member / member-counter rules; exhaustive path analysis of Response::serialize",
+        "text": "Decides key, presence predicate and shape of every response member against an independent table, that no Option member of any map-emitting impl can be emitted as null or dropped, that the map header counts exactly the emitted members, "
+                "and the framing (status 0, body from the variant's own payload, [0xA0] collapse, empty body for parameter-less responses) on all enumerated paths, in all 9 configurations. Members are emitted by independent guarded statements, so every subset is covered. "
+                "Leaf value encodings are the dependencies' and are not decided.",
+        "note": DEPS + "Not decided: byte encodings of leaf values.",
+    },
+    "C17": {
+        "level": "other",
+        "technique": "exhaustive control-flow path enumeration of the loop-free Response::serialize from typed HIR with ordered effect extraction (who-may-call on the buffer, definite assignment of the status byte, final-length literal per path)",
+        "text": "Every path (variant arm x {Ok&[0xA0], Ok, Err}) is decided clause by clause: grow to capacity first, split status/body, only the encoder writes the body tail, status assigned exactly once with the right constant, "
+                "final resize is the last buffer operation with n = 1 or written-length + 1, resize results discarded. That gives complete-or-one-byte-0x7F and independence from prior contents relative to cbor_serialize's contract.",
+        "note": DEPS + "Assumes cbor_serialize returns Err rather than a truncated prefix when the body does not fit, and N >= 1 (the property's precondition).",
+    },
     "C10": {
         "level": "proof",
         "technique": "static decision-table extraction from typed HIR of the dispatchers (resolved trait-method callees, per-arm effect and `?` plumbing analysis), parametric in the authenticator",
@@ -41,7 +64,7 @@ CLAIMS = {
 }
 
 PENDING = "static check not built yet in this round (design in DESIGN.md section 5); not claimed until its rule engine exists"
-NOT_APPLICABLE = {p: PENDING for p in ["C01", "C02", "C04", "C05", "C06", "C07", "C08", "C09", "C12", "C13", "C14", "C15", "C16", "C17", "C18", "C19"]}
+NOT_APPLICABLE = {p: PENDING for p in ["C04", "C05", "C06", "C07", "C08", "C09", "C12", "C13", "C14", "C15", "C16", "C17", "C18", "C19"]}
 for p in CLAIMS:
     NOT_APPLICABLE.pop(p, None)
 
